@@ -334,6 +334,9 @@ impl<'a, 'tcx> BodyCx<'a, 'tcx> {
         let tcx = self.cx.tcx;
         let t = c.const_.ty();
         let mut v: Vec<(&str, String)> = vec![("ty", self.cx.ty(t))];
+        if !c.span.is_dummy() && !c.span.from_expansion() {
+            v.push(("usp", "1".to_string()));   // the constant was written by the user (root syntax context)
+        }
         if let ty::FnDef(did, args) = t.kind() {
             v.push(("fn", obj(self.callee(*did, args))));
             return obj(v);
@@ -478,6 +481,7 @@ impl<'a, 'tcx> BodyCx<'a, 'tcx> {
                 ("kind", esc(&format!("{:?}", k))),
                 ("o", self.operand(o)),
                 ("ty", self.cx.ty(*t)),
+                ("from", self.cx.ty(o.ty(&self.body.local_decls, self.cx.tcx))),
             ]),
             Rvalue::BinaryOp(op, ops) => {
                 let (x, y) = &**ops;
@@ -751,10 +755,39 @@ impl rustc_driver::Callbacks for Cb {
         let mut fns = vec![];
         let mut uses = vec![];
         let mut consts = vec![];
+        let mut items = vec![];
 
         for id in tcx.hir_crate_items(()).definitions() {
             let did = id.to_def_id();
             let kind = tcx.def_kind(did);
+            // every named item that sits directly in a module: what a path written in that module can resolve to
+            if matches!(
+                kind,
+                DefKind::Mod | DefKind::Struct | DefKind::Enum | DefKind::Union | DefKind::Trait | DefKind::TraitAlias
+                    | DefKind::TyAlias | DefKind::Const { .. } | DefKind::Static { .. } | DefKind::Fn | DefKind::Macro(..)
+            ) && did != rustc_span::def_id::CRATE_DEF_ID.to_def_id()
+            {
+                // ... or in a function body (scope = "fn"): what a path written in that body resolves to first
+                let par = tcx.parent(did);
+                let pk = tcx.def_kind(par);
+                let scope = match pk {
+                    DefKind::Mod => "mod",
+                    DefKind::Fn | DefKind::AssocFn | DefKind::Closure | DefKind::Const { .. } | DefKind::AssocConst { .. } => "fn",
+                    _ => "",
+                };
+                if !scope.is_empty() {
+                    if let Some(name) = tcx.opt_item_name(did) {
+                        items.push(obj(vec![
+                            ("name", esc(name.as_str())),
+                            ("kind", esc(&format!("{:?}", kind).split(|c| c == ' ' || c == '(' || c == '{').next().unwrap_or("").to_string())),
+                            ("scope", esc(scope)),
+                            ("module", esc(&cx.path(if scope == "mod" { par } else { nearest_mod(tcx, id) }))),
+                            ("owner", esc(&cx.path(par))),
+                            ("span", cx.span(tcx.def_span(did))),
+                        ]));
+                    }
+                }
+            }
             match kind {
                 DefKind::Mod => {
                     mods.push(obj(vec![
@@ -943,6 +976,7 @@ impl rustc_driver::Callbacks for Cb {
             ("impls", arr(impls)),
             ("uses", arr(uses)),
             ("consts", arr(consts)),
+            ("items", arr(items)),
             ("fns", arr(fns)),
             ("types", arr(cx.ty_tab.borrow().clone())),
         ]);
